@@ -44,6 +44,15 @@ CLAIMED = {
              "step cost). Bounded: real samplers advanced by m in {0,1,7,99,100,101,150} and a scripted slow clock.",
         note="take_step is modular inside advance/run_for (its +1 contract is proved per sampler); ChainPool equality is bounded only",
         ref="3/C15"),
+    "C14": dict(
+        text="Proof: for every chain length, burn >= 0 and thin >= 1 the parameter / sample / log-probability read-outs of the "
+             "Gibbs/PCA, Hamiltonian and ensemble samplers have the documented number of rows and entry k is chain entry "
+             "burn + k*thin; get_interval ranks exactly the burned/thinned log-probabilities, returns every row of the top fraction "
+             "with its own log-probability, and with a requested count returns min(count, available) rows as a 2-D array. "
+             "Bounded: element-wise comparison on the real samplers incl. membership of counted rows and get_marginal's argument.",
+        note="Python slicing and numpy argsort/sort/permutation/fancy-indexing contracts assumed; requested count proved for the listed values {1,3,50}; "
+             "membership of each counted row in the top fraction is bounded only",
+        ref="3/C14"),
     "C13": dict(
         text="Proof: for every sample length, column count and fraction, the interval returned by the real sample_hdi code has "
              "two sorted sample values L=floor(f*n) positions apart as end points (so it holds L+1 > f*n points), no window of "
